@@ -11,7 +11,8 @@ RULE = (
     "utilisation, idle, tasks assigned, cost with constant/linear/quadratic functions and coefficients -2..5, buffer extrema, "
     "user expressions) plus IndicatorTarget/IndicatorBounds constraints, horizons 2-8 and 7, 9, 11, 13, 150, 200 and no horizon, "
     "optional and alternative assignments x admitted schedules (steered/extremal/enumerated); the value delivered by "
-    "build_solution(model) is compared with the reference recomputation from the same schedule: |reported - exact| < 1. "
+    "build_solution(model) is compared with the reference recomputation from the same schedule as delivered (with the reported horizon "
+    "when the problem declares none): |reported - exact| < 1. "
     "Non-trivial = non-default schedule in which some judged indicator has a non-zero exact value; distinct by SHA-1."
 )
 ASSUMPTIONS = [
